@@ -323,6 +323,7 @@ func (r *runner) run() int {
 		isPanic bool
 		key     string
 		label   string
+		tolerated []string
 		where   string
 		human   []string
 	}
@@ -416,7 +417,7 @@ func (r *runner) run() int {
 		for i, w := range rep.Witnesses {
 			vals, human := modelVals(w.Nondets, w.Model)
 			id := fmt.Sprintf("%s#w%d", h.Name, i)
-			pend = append(pend, pending{c: replayCase{ID: id, Harness: h.Name, Tier: r.tier, Vals: vals}, pkg: h.Pkg, kind: "witness", label: w.Label, human: human})
+			pend = append(pend, pending{c: replayCase{ID: id, Harness: h.Name, Tier: r.tier, Vals: vals}, pkg: h.Pkg, kind: "witness", label: w.Label, human: human, tolerated: w.KnownClauses})
 			if len(samples) < 12 {
 				samples = append(samples, map[string]interface{}{"harness": h.Name, "reach_label": w.Label, "verdict": "all obligations on this path unsat", "witness_inputs": human})
 			}
@@ -448,7 +449,18 @@ func (r *runner) run() int {
 			o := outs[p.c.ID]
 			switch p.kind {
 			case "witness":
-				ok := o.AssumeViolated == "" && o.Panic == "" && len(o.Failed) == 0 && !o.Overrun
+				ok := o.AssumeViolated == "" && o.Panic == "" && !o.Overrun
+				for _, f := range o.Failed {
+					tol := false
+					for _, t := range p.tolerated {
+						if t == f {
+							tol = true
+						}
+					}
+					if !tol {
+						ok = false
+					}
+				}
 				found := false
 				for _, l := range o.Reached {
 					if l == p.label {
